@@ -14,7 +14,7 @@ import ast
 import re
 
 from ..core.tree import AnalysisError
-from ..core.constfold import Folder, ClassRef
+from ..core.constfold import Folder, ClassRef, Stub
 from ..core.astutil import walk_no_nested, call_name, short, src
 from ..engines import regexlang as R
 from ..engines.regexuse import regex_uses
@@ -41,35 +41,6 @@ def order(ctx, report, folder):
     names = [r.cls.name if isinstance(r, ClassRef) else str(r) for r in readers]
     report.check(names == ORDER, "R-TABLE-REF", ("pycaption/__init__.py", "<module>"),
                  "SUPPORTED_READERS is probed in the documented order", {"found": names, "required": ORDER}, "1")
-    fn = ctx.index.get_function("pycaption/__init__.py", "detect_format")
-    report.covered(fn)
-    body = [s for s in fn.node.body if not (isinstance(s, ast.Expr) and isinstance(s.value, ast.Constant))]
-    par = fn.params[0]
-    # emptiness guard first
-    g = body[0] if body else None
-    ok = isinstance(g, ast.If) and src(g.test) in (f"not len({par})", f"not {par}", f"len({par}) == 0", f"{par} == ''") \
-        and len(g.body) == 1 and isinstance(g.body[0], ast.Raise) and isinstance(g.body[0].exc, ast.Call) \
-        and call_name(g.body[0].exc) == "CaptionReadNoCaptions"
-    report.check(ok, "R-DOMINATES", fn, "the emptiness test raising CaptionReadNoCaptions precedes the probe loop",
-                 short(g) if g is not None else None, "1")
-    loops = [s for s in body if isinstance(s, ast.For)]
-    if len(loops) != 1:
-        raise AnalysisError("detect_format: probe loop not found")
-    lp = loops[0]
-    ok = src(lp.iter) == "SUPPORTED_READERS" and isinstance(lp.target, ast.Name)
-    rv = lp.target.id if isinstance(lp.target, ast.Name) else "?"
-    inner = [s for s in lp.body]
-    ok2 = len(inner) == 1 and isinstance(inner[0], ast.If) and src(inner[0].test) == f"{rv}().detect({par})" \
-        and len(inner[0].body) == 1 and isinstance(inner[0].body[0], ast.Return) and src(inner[0].body[0].value) == rv \
-        and not inner[0].orelse and not lp.orelse
-    report.check(ok and ok2, "R-FIRST-ACCEPT", (fn, lp), "the first reader whose own detect accepts is returned",
-                 short(lp), "1")
-    after = body[body.index(lp) + 1:]
-    ok3 = (not after) or (len(after) == 1 and isinstance(after[0], ast.Return) and
-                          (after[0].value is None or src(after[0].value) == "None"))
-    report.check(ok3, "R-FIRST-ACCEPT", fn, "when no reader accepts, None is returned", [short(s) for s in after], "1")
-    report.check(body.index(g) < body.index(lp) if g in body else False, "R-ORDER", fn,
-                 "guard before loop", None, "1")
 
 
 # --------------------------------------------------------------------------
@@ -82,7 +53,7 @@ def nothrow(ctx, report, folder):
         if det is None:
             raise AnalysisError(f"{cls.name}: no detect method")
         report.covered(det)
-        problems, unknown = scan_nothrow(det)
+        problems, unknown = scan_nothrow(det, folder)
         n += 1
         if unknown:
             raise AnalysisError(f"{det.qualname}: constructs outside the exception-freedom whitelist: {unknown[:3]}")
@@ -99,7 +70,7 @@ def nothrow(ctx, report, folder):
         raise AnalysisError(f"only {n} detect methods analysed (floor 6)")
 
 
-def scan_nothrow(fn):
+def scan_nothrow(fn, folder=None):
     par = fn.params[1] if len(fn.params) > 1 else "content"
     problems, unknown = [], []
     line_lists = {}   # name -> 'splitlines' | 'split'
@@ -179,6 +150,10 @@ def scan_nothrow(fn):
                 k = e.slice.value
                 name = src(e.value)
                 info = line_lists.get(name)
+                if isinstance(e.value, ast.Call) and isinstance(e.value.func, ast.Attribute) and k in (0, -1) \
+                        and ((e.value.func.attr == "splitlines" and src(e.value.func.value) == par)
+                             or (e.value.func.attr == "split" and e.value.args)):
+                    return    # same two facts, without the intermediate name
                 if info and info[0] == "splitlines" and info[1] == par and k in (0, -1):
                     return    # non-empty string -> at least one line
                 if info and info[0] == "split" and k in (0, -1):
@@ -199,6 +174,19 @@ def scan_nothrow(fn):
                     return
                 if cn in SAFE_FUNCS:
                     return
+                if e.func.attr in ("match", "search", "fullmatch", "findall", "finditer") and folder is not None:
+                    # a pattern compiled once (module or class constant): compiling cannot fail at call time,
+                    # matching a str never raises
+                    try:
+                        use = [u for u in regex_uses(fn, folder) if u.node is e]
+                    except AnalysisError:
+                        use = []
+                    if use:
+                        try:
+                            re.compile(use[0].pattern, use[0].flags or 0)
+                        except re.error as ex:
+                            problems.append(f"{src(e)}: the pattern does not compile ({ex})")
+                        return
                 if e.func.attr in ("group", "groups", "start", "end", "span"):
                     problems.append(f"{src(e)}: attribute of a match object that may be None (AttributeError)")
                     return
@@ -300,78 +288,69 @@ def _const_strings(fn):
     return out
 
 
+def _first_written(idx, folder, path, qual):
+    """value of the first assignment to the name `write` returns: what the document starts with"""
+    fn = idx.get_function(path, qual, inline=True)
+    rets = [n for n in walk_no_nested(fn.node) if isinstance(n, ast.Return) and n.value is not None]
+    def head(e):
+        while isinstance(e, ast.BinOp) and isinstance(e.op, ast.Add):
+            e = e.left            # `return output + more`: the document still starts with `output`
+        return e
+    heads = [head(r.value) for r in rets]
+    names = {h.id for h in heads if isinstance(h, ast.Name)}
+    if len(names) != 1 or not all(isinstance(h, ast.Name) for h in heads):
+        raise AnalysisError(f"{qual}: the returned document is not a single accumulated name")
+    name = names.pop()
+    first = sorted((n for n in walk_no_nested(fn.node) if isinstance(n, (ast.Assign, ast.AugAssign))
+                    and src(n.targets[0] if isinstance(n, ast.Assign) else n.target) == name), key=lambda n: n.lineno)
+    if not first or not isinstance(first[0], ast.Assign):
+        raise AnalysisError(f"{qual}: first write to {name} not found")
+    try:
+        v = folder.eval_in(fn.module, first[0].value, {"self": Stub(fn.cls.name, {}, cls=fn.cls)})
+    except AnalysisError as e:
+        raise AnalysisError(f"{qual}: the document's first piece does not fold: {e}")
+    if not isinstance(v, str):
+        raise AnalysisError(f"{qual}: the document's first piece is not a string")
+    return fn, first[0], v
+
+
 def markers(ctx, report, folder):
+    from . import c20_fold
     idx = ctx.index
-    # what each sniffer looks for (extracted from its source)
-    sniff = {}
     det = {n: idx.find_class(n).find_method("detect") for n in ORDER}
-    t = src(det["DFXPReader"].node)
-    m = re.search(r"'([^']+)' in content\.lower\(\)", t)
-    sniff["DFXPReader"] = ("substring-lower", m.group(1)) if m else None
-    t = src(det["WebVTTReader"].node)
-    m = re.search(r"'([^']+)' in content\b", t)
-    sniff["WebVTTReader"] = ("substring", m.group(1)) if m else None
-    t = src(det["SAMIReader"].node)
-    m = re.search(r"'([^']+)' in content\.lower\(\)", t)
-    sniff["SAMIReader"] = ("substring-lower", m.group(1)) if m else None
-    if not all(sniff.get(k) for k in ("DFXPReader", "WebVTTReader", "SAMIReader")):
-        raise AnalysisError("substring sniffers of DFXP / WebVTT / SAMI not recognised")
-    # skeleton constants of the writers
-    skeleton = {
+    ww, wfirst, whead = _first_written(idx, folder, "pycaption/webvtt.py", "WebVTTWriter.write")
+    sw, sfirst, shead = _first_written(idx, folder, "pycaption/scc/__init__.py", "SCCWriter.write")
+    srt = idx.get_function("pycaption/srt.py", "SRTWriter._recreate_lang")
+    srt_index = _srt_first_index(srt)
+    cue = "00:00:01.000 --> 00:00:02.000\nhello\n"
+    documents = {
         "DFXPWriter": [folder.value("pycaption.dfxp.base", "DFXP_BASE_MARKUP")],
         "LegacyDFXPWriter": [folder.value("pycaption.dfxp.extras", "LEGACY_DFXP_BASE_MARKUP")],
         "SAMIWriter": [folder.value("pycaption.sami", "SAMI_BASE_MARKUP")],
-        "WebVTTWriter": [folder.eval_in("pycaption.webvtt", idx.find_class("WebVTTWriter").class_attrs["HEADER"])],
-        "SCCWriter": [folder.value("pycaption.scc.constants", "HEADER")],
-        "SRTWriter": _const_strings(idx.get_function("pycaption/srt.py", "SRTWriter._recreate_lang")) +
-        _const_strings(idx.get_function("pycaption/srt.py", "SRTWriter.write")),
-        "MicroDVDWriter": _const_strings(idx.get_function("pycaption/microdvd.py", "MicroDVDWriter._recreate_lang")),
+        "WebVTTWriter": [whead + cue, whead],
+        "SCCWriter": [shead + "00:00:01:00\t9420 9420 94ae 94ae 9470 9470 c1c2 942f 942f\n\n", shead],
+        "SRTWriter": [f"{srt_index}\n00:00:01,000 --> 00:00:02,000\nhello\n"],
+        "MicroDVDWriter": ["{25}{50}hello\n", "{0}{0}\n"],
     }
+    if not all(isinstance(d, str) for ds in documents.values() for d in ds):
+        raise AnalysisError("a writer skeleton does not fold to a string")
+    sn = c20_fold.run(ctx, report, folder, documents)
     own = {"DFXPWriter": "DFXPReader", "LegacyDFXPWriter": "DFXPReader", "SAMIWriter": "SAMIReader",
            "WebVTTWriter": "WebVTTReader", "SCCWriter": "SCCReader", "SRTWriter": "SRTReader",
            "MicroDVDWriter": "MicroDVDReader"}
-
-    def accepts(reader, texts):
-        kind, mk = sniff[reader]
-        for s in texts:
-            if kind == "substring" and mk in s:
-                return True
-            if kind == "substring-lower" and mk in s.lower():
-                return True
-        return False
-    for w in ("DFXPWriter", "LegacyDFXPWriter", "SAMIWriter", "WebVTTWriter"):
-        r = own[w]
-        report.check(accepts(r, skeleton[w]), "R-MARKER", (idx.find_class(w).module.path, w),
-                     f"{w}'s skeleton contains the marker {sniff[r][1]!r} that {r}.detect looks for",
-                     {"skeleton": [s[:60] for s in skeleton[w]]}, "3")
-    # the WebVTT header constant is what write() starts from
-    ww = idx.get_function("pycaption/webvtt.py", "WebVTTWriter.write")
-    first = [n for n in walk_no_nested(ww.node) if isinstance(n, ast.Assign) and src(n.targets[0]) == "output"]
-    report.check(bool(first) and src(first[0].value) == "self.HEADER", "R-MARKER", ww,
-                 "WebVTT output starts with the HEADER constant", [short(f) for f in first], "3")
-    # earlier sniffers must not fire on a later writer's skeleton
+    where = {"WebVTTWriter": ww, "SCCWriter": sw, "SRTWriter": srt}
     for w, r in own.items():
+        site = where.get(w) or (idx.find_class(w).module.path, w)
+        acc = [sn.accepts(r, d) for d in documents[w]]
+        report.check(all(a is True for a in acc), "R-MARKER", site,
+                     f"{r}.detect accepts the document skeleton {w} starts from",
+                     {"skeleton": [d[:60] for d in documents[w]], "accepted": [a if isinstance(a, bool) else list(a) for a in acc]}, "3")
         for earlier in ORDER[:ORDER.index(r)]:
-            if earlier not in sniff:
-                continue
-            hit = accepts(earlier, skeleton[w])
-            report.check(not hit, "R-MARKER-EXCLUSION", (idx.find_class(w).module.path, w),
-                         f"{earlier}'s marker {sniff[earlier][1]!r} does not occur in {w}'s skeleton", None, "3")
-    # SCC: first line equals HEADER
-    sd = det["SCCReader"]
-    ok = re.search(r"lines\[0\] == HEADER", src(sd.node)) is not None
-    sw = idx.get_function("pycaption/scc/__init__.py", "SCCWriter.write")
-    first = [n for n in walk_no_nested(sw.node) if isinstance(n, ast.Assign) and src(n.targets[0]) == "output"]
-    ok2 = bool(first) and re.fullmatch(r"HEADER \+ '(\\n)+'", src(first[0].value)) is not None
-    report.check(ok and ok2, "R-MARKER", sw, "SCC output's first line is exactly the HEADER the sniffer compares with",
-                 {"detect": ok, "writer": [short(f) for f in first]}, "3")
-    # SRT: first line a number, second contains the arrow
-    srt = idx.get_function("pycaption/srt.py", "SRTWriter._recreate_lang")
-    ok = _srt_first_index(srt) == 1
-    sdt = src(det["SRTReader"].node)
-    ok2 = ".isdigit()" in sdt and "'-->' in" in sdt
-    report.check(ok and ok2, "R-MARKER", srt, "SRT output starts with the index line '1' followed by an arrow line",
-                 {"writer": ok, "sniffer": ok2}, "3")
+            hit = [d[:60] for d in documents[w] if sn.accepts(earlier, d) is True]
+            report.check(not hit, "R-MARKER-EXCLUSION", site,
+                         f"{earlier}.detect (probed earlier) does not accept {w}'s skeleton", {"accepted": hit} if hit else None, "3")
+    report.check(srt_index == 1, "R-MARKER", srt, "SRT output starts with the index line '1' followed by an arrow line",
+                 {"first_index": srt_index}, "3")
     # MicroDVD: language of a written line <= sniffer
     md = det["MicroDVDReader"]
     uses = [u for u in regex_uses(md, folder) if u.method in ("match", "search", "fullmatch")]
